@@ -1,5 +1,6 @@
 import SimuVerif.Lemmas.C13_Count
 import SimuVerif.Lemmas.C13_Graph
+import Mathlib.Data.Finset.Max
 /-
   C13 — a triangulated surface in which every edge is used by exactly two faces, with V − E + F = 2, whose faces are
   joined by a spanning tree of consistently oriented adjacencies, is consistently oriented EVERYWHERE.
@@ -102,5 +103,393 @@ theorem three_faces {T : List Tri} (h2 : EdgeTwo T) (k : HE) {f g h : Nat}
     rw [Finset.card_insert_of_notMem (by simp [h1, h2']), Finset.card_insert_of_notMem (by simp [h3])]; simp
   have := countP_le_count T k
   rcases h2 k with h | h <;> omega
+
+/-! ### the setting -/
+
+/-- the hypotheses: non-degenerate faces, every edge in two face slots, Euler characteristic 2, and a spanning tree of the
+    face adjacency graph (root = face 0, `parent`, decreasing `rank`) along which adjacent faces traverse their common edge
+    `A f → B f` (in the parent) / `B f → A f` (in the child) in opposite directions -/
+structure Tree (T : List Tri) (rank parent A B : Nat → Nat) : Prop where
+  nd : NonDeg T
+  two : EdgeTwo T
+  chi : chiZ T = 2
+  par : ∀ f, 0 < f → f < T.length → parent f < T.length ∧ rank (parent f) < rank f
+  adj : ∀ f, 0 < f → f < T.length → (A f, B f) ∈ dirs (face T (parent f)) ∧ (B f, A f) ∈ dirs (face T f)
+
+theorem crosses_norm (e : HE) (K : Finset Nat) : Crosses (normHE e) K ↔ Crosses e K := by
+  rcases normHE_cases e with h | h <;> rw [h]
+  unfold Crosses; simp only; tauto
+
+theorem key_of_dir {t : Tri} {e : HE} (h : e ∈ dirs t) : normHE e ∈ keys t := mem_keys_iff.mpr ⟨e, h, rfl⟩
+
+theorem mem_edgesF {T : List Tri} {k : HE} : k ∈ edgesF T ↔ ∃ e ∈ heM T, normHE e = k := by
+  simp [edgesF]
+
+section main
+variable {T : List Tri} {rank parent A B : Nat → Nat}
+
+/-- the tree edge of a non-root face, as an undirected edge -/
+def te (A B : Nat → Nat) (f : Nat) : HE := normHE (A f, B f)
+
+theorem te_child (H : Tree T rank parent A B) {f : Nat} (h0 : 0 < f) (hf : f < T.length) :
+    te A B f ∈ keys (face T f) := by
+  have := key_of_dir (H.adj f h0 hf).2
+  rwa [normHE_comm] at this
+
+theorem te_parent (H : Tree T rank parent A B) {f : Nat} (h0 : 0 < f) (hf : f < T.length) :
+    te A B f ∈ keys (face T (parent f)) := key_of_dir (H.adj f h0 hf).1
+
+theorem te_inj (H : Tree T rank parent A B) {f g : Nat} (hf0 : 0 < f) (hf : f < T.length) (hg0 : 0 < g) (hg : g < T.length)
+    (h : te A B f = te A B g) : f = g := by
+  obtain ⟨hpf, hrf⟩ := H.par f hf0 hf
+  obtain ⟨hpg, hrg⟩ := H.par g hg0 hg
+  have k1 := te_child H hf0 hf
+  have k2 := te_parent H hf0 hf
+  have k3 := te_child H hg0 hg
+  have k4 := te_parent H hg0 hg
+  rw [← h] at k3 k4
+  rcases three_faces H.two _ hf hpf hg k1 k2 k3 with e | e | e
+  · rw [← e] at hrf; omega
+  · exact e
+  · rcases three_faces H.two _ hf hg hpg k1 k3 k4 with e' | e' | e'
+    · exact e'
+    · rw [← e', ← e] at hrg; omega
+    · rw [← e'] at hrg; omega
+
+theorem cnt_cases (H : Tree T rank parent A B) (a b : Nat) :
+    ((heM T).count (a, b) = 0 ∧ (heM T).count (b, a) = 0) ∨ ((heM T).count (a, b) = 1 ∧ (heM T).count (b, a) = 1) ∨
+    ((heM T).count (a, b) = 2 ∧ (heM T).count (b, a) = 0) ∨ ((heM T).count (a, b) = 0 ∧ (heM T).count (b, a) = 2) := by
+  by_cases hab : a = b
+  · subst hab; left; exact ⟨nondeg_no_loop H.nd a, nondeg_no_loop H.nd a⟩
+  · rcases edgeTwo_dir H.two hab with h | h <;> omega
+
+/-- the inconsistent edges: both faces traverse them in the same direction -/
+noncomputable def bad (T : List Tri) : Finset HE :=
+  (edgesF T).filter (fun k => (heM T).count (k.1, k.2) = 2 ∨ (heM T).count (k.2, k.1) = 2)
+
+theorem te_not_bad (H : Tree T rank parent A B) {f : Nat} (h0 : 0 < f) (hf : f < T.length) : te A B f ∉ bad T := by
+  obtain ⟨h1, h2⟩ := H.adj f h0 hf
+  have m1 : (A f, B f) ∈ heM T := dirs_mem_heM (H.par f h0 hf).1 h1
+  have m2 : (B f, A f) ∈ heM T := dirs_mem_heM hf h2
+  have c1 := Multiset.one_le_count_iff_mem.mpr m1
+  have c2 := Multiset.one_le_count_iff_mem.mpr m2
+  have cc := cnt_cases H (A f) (B f)
+  intro hb
+  unfold bad at hb
+  rw [Finset.mem_filter] at hb
+  rcases normHE_cases (A f, B f) with h | h <;> (unfold te at hb; rw [h] at hb; simp only at hb; omega)
+
+/-! ### every vertex meets an even number of inconsistent edges -/
+
+theorem bad_even (H : Tree T rank parent A B) (v : Nat) : Even (deg (bad T) v) := by
+  classical
+  have hverts : ∀ e ∈ heM T, e.1 ∈ vertsF T ∧ e.2 ∈ vertsF T := fun e he => verts_of_mem_heM he
+  let S := (vertsF T).filter (fun w => (heM T).count (v, w) = 2 ∨ (heM T).count (w, v) = 2)
+  -- the bad edges at v are the images of S
+  have himg : (bad T).filter (fun e => Inc e v) = S.image (fun w => normHE (v, w)) := by
+    ext k
+    simp only [Finset.mem_filter, Finset.mem_image, S, bad]
+    constructor
+    · rintro ⟨⟨hk, hc⟩, hi⟩
+      obtain ⟨e, he, rfl⟩ := mem_edgesF.mp hk
+      have hle := normHE_fst_le e
+      have hvs : (normHE e).1 ∈ vertsF T ∧ (normHE e).2 ∈ vertsF T := by
+        rcases normHE_cases e with h | h <;> rw [h]
+        · exact hverts e he
+        · exact ⟨(hverts e he).2, (hverts e he).1⟩
+      generalize normHE e = k at *
+      obtain ⟨x, y⟩ := k
+      simp only at hc hle hvs
+      rcases hi with h | h
+      · simp only at h; subst h
+        refine ⟨y, ⟨hvs.2, hc⟩, ?_⟩
+        unfold normHE; simp [hle]
+      · simp only at h; subst h
+        refine ⟨x, ⟨hvs.1, hc.symm⟩, ?_⟩
+        rw [normHE_comm]; unfold normHE; simp [hle]
+    · rintro ⟨w, ⟨hw, hc⟩, rfl⟩
+      have hmem : (v, w) ∈ heM T ∨ (w, v) ∈ heM T := by
+        rcases hc with h | h
+        · left; exact Multiset.count_pos.mp (by omega)
+        · right; exact Multiset.count_pos.mp (by omega)
+      refine ⟨⟨?_, ?_⟩, ?_⟩
+      · rcases hmem with h | h
+        · exact mem_edgesF.mpr ⟨_, h, rfl⟩
+        · exact mem_edgesF.mpr ⟨_, h, (normHE_comm w v)⟩
+      · rcases normHE_cases (v, w) with h | h <;> rw [h] <;> simp only
+        · exact hc
+        · exact hc.symm
+      · rcases normHE_cases (v, w) with h | h <;> rw [h]
+        · left; rfl
+        · right; rfl
+  have hinj : Set.InjOn (fun w => normHE (v, w)) (S : Set Nat) := by
+    intro w _ w' _ h
+    simp only at h
+    rcases (normHE_eq_iff (v, w) v w').mp h with h | h
+    · exact (Prod.mk.inj h).2
+    · obtain ⟨h1, h2⟩ := Prod.mk.inj h
+      rw [h2, ← h1]
+  have hdeg : deg (bad T) v = S.card := by
+    unfold deg; rw [himg, Finset.card_image_of_injOn hinj]
+  -- S splits into out-out and in-in neighbours, equally many
+  let OO := (vertsF T).filter (fun w => (heM T).count (v, w) = 2)
+  let II := (vertsF T).filter (fun w => (heM T).count (w, v) = 2)
+  have hS : S = OO ∪ II := by
+    ext w; simp only [S, OO, II, Finset.mem_filter, Finset.mem_union]; tauto
+  have hdisj : Disjoint OO II := by
+    rw [Finset.disjoint_left]
+    intro w h1 h2
+    simp only [OO, II, Finset.mem_filter] at h1 h2
+    have := cnt_cases H v w
+    omega
+  have hsum : ∑ w ∈ vertsF T, (heM T).count (v, w) = ∑ w ∈ vertsF T, (heM T).count (w, v) := by
+    rw [sum_count_fst (heM T) (vertsF T) (fun e he => (hverts e he).2), sum_count_snd (heM T) (vertsF T) (fun e he => (hverts e he).1)]
+    exact out_eq_in T v
+  have h1 : ∀ w ∈ vertsF T, (heM T).count (v, w) = (if (heM T).count (v, w) = 1 then 1 else 0) +
+      (if (heM T).count (v, w) = 2 then 1 else 0) + (if (heM T).count (v, w) = 2 then 1 else 0) := by
+    intro w _
+    have := cnt_cases H v w
+    split_ifs <;> omega
+  have h2 : ∀ w ∈ vertsF T, (heM T).count (w, v) = (if (heM T).count (v, w) = 1 then 1 else 0) +
+      (if (heM T).count (w, v) = 2 then 1 else 0) + (if (heM T).count (w, v) = 2 then 1 else 0) := by
+    intro w _
+    have := cnt_cases H v w
+    split_ifs <;> omega
+  have e1 : ∑ w ∈ vertsF T, (heM T).count (v, w) =
+      ((vertsF T).filter (fun w => (heM T).count (v, w) = 1)).card + OO.card + OO.card := by
+    rw [Finset.sum_congr rfl h1, Finset.sum_add_distrib, Finset.sum_add_distrib, ← Finset.card_filter, ← Finset.card_filter]
+  have e2 : ∑ w ∈ vertsF T, (heM T).count (w, v) =
+      ((vertsF T).filter (fun w => (heM T).count (v, w) = 1)).card + II.card + II.card := by
+    rw [Finset.sum_congr rfl h2, Finset.sum_add_distrib, Finset.sum_add_distrib, ← Finset.card_filter, ← Finset.card_filter]
+  have hcard : OO.card = II.card := by omega
+  rw [hdeg, hS, Finset.card_union_of_disjoint hdisj, hcard]
+  exact ⟨II.card, rfl⟩
+
+/-! ### the edges outside the tree form a connected graph -/
+
+/-- a face is cut by `K` when one of its edges leaves `K` -/
+def Mixed (T : List Tri) (K : Finset Nat) (f : Nat) : Prop := ∃ e ∈ dirs (face T f), Crosses e K
+
+theorem not_mixed_side {t : Tri} {K : Finset Nat} (h : ∀ e ∈ dirs t, ¬ Crosses e K) :
+    (t.1 ∈ K ↔ t.2.1 ∈ K) ∧ (t.2.1 ∈ K ↔ t.2.2 ∈ K) := by
+  have h1 := h (t.1, t.2.1) (by simp [dirs])
+  have h2 := h (t.2.1, t.2.2) (by simp [dirs])
+  unfold Crosses at h1 h2
+  simp only at h1 h2
+  constructor <;> tauto
+
+theorem side_of_dir {t : Tri} {K : Finset Nat} (h : ∀ e ∈ dirs t, ¬ Crosses e K) {e : HE} (he : e ∈ dirs t) :
+    (e.1 ∈ K ↔ t.1 ∈ K) ∧ (e.2 ∈ K ↔ t.1 ∈ K) := by
+  obtain ⟨h1, h2⟩ := not_mixed_side h
+  simp only [dirs, List.mem_cons, List.mem_nil_iff, or_false] at he
+  rcases he with rfl | rfl | rfl <;> simp only <;> tauto
+
+/-- a cut face has two crossing edges, with different undirected edges -/
+theorem two_crossing {t : Tri} (hn : TriND t) {K : Finset Nat} (h : ∃ e ∈ dirs t, Crosses e K) :
+    ∃ e1 e2, e1 ∈ dirs t ∧ e2 ∈ dirs t ∧ Crosses e1 K ∧ Crosses e2 K ∧ normHE e1 ≠ normHE e2 := by
+  obtain ⟨x, y, z⟩ := t
+  obtain ⟨h1, h2, h3⟩ := hn
+  simp only at h1 h2 h3
+  have n1 : normHE (x, y) ≠ normHE (y, z) := by
+    intro hh; rcases (normHE_eq_iff (x, y) y z).mp hh with e | e <;> (simp only [Prod.mk.injEq] at e; omega)
+  have n2 : normHE (y, z) ≠ normHE (z, x) := by
+    intro hh; rcases (normHE_eq_iff (y, z) z x).mp hh with e | e <;> (simp only [Prod.mk.injEq] at e; omega)
+  have n3 : normHE (z, x) ≠ normHE (x, y) := by
+    intro hh; rcases (normHE_eq_iff (z, x) x y).mp hh with e | e <;> (simp only [Prod.mk.injEq] at e; omega)
+  obtain ⟨e, he, hc⟩ := h
+  have m1 : (x, y) ∈ dirs (x, y, z) := by simp [dirs]
+  have m2 : (y, z) ∈ dirs (x, y, z) := by simp [dirs]
+  have m3 : (z, x) ∈ dirs (x, y, z) := by simp [dirs]
+  simp only [dirs, List.mem_cons, List.mem_nil_iff, or_false] at he
+  unfold Crosses at hc ⊢
+  by_cases hx : x ∈ K <;> by_cases hy : y ∈ K <;> by_cases hz : z ∈ K
+  · rcases he with rfl | rfl | rfl <;> simp [hx, hy, hz] at hc
+  · exact ⟨(y, z), (z, x), m2, m3, by simp [hy, hz], by simp [hx, hz], n2⟩
+  · exact ⟨(x, y), (y, z), m1, m2, by simp [hx, hy], by simp [hy, hz], n1⟩
+  · exact ⟨(z, x), (x, y), m3, m1, by simp [hx, hz], by simp [hx, hy], n3⟩
+  · exact ⟨(z, x), (x, y), m3, m1, by simp [hx, hz], by simp [hx, hy], n3⟩
+  · exact ⟨(x, y), (y, z), m1, m2, by simp [hx, hy], by simp [hy, hz], n1⟩
+  · exact ⟨(y, z), (z, x), m2, m3, by simp [hy, hz], by simp [hx, hz], n2⟩
+  · rcases he with rfl | rfl | rfl <;> simp [hx, hy, hz] at hc
+
+/-- when no face is cut, every face lies on the side of the root -/
+theorem all_on_root_side (H : Tree T rank parent A B) (K : Finset Nat)
+    (hno : ∀ f, f < T.length → ∀ e ∈ dirs (face T f), ¬ Crosses e K) :
+    ∀ n f, rank f = n → f < T.length → ((face T f).1 ∈ K ↔ (face T 0).1 ∈ K) := by
+  intro n
+  induction n using Nat.strong_induction_on with
+  | _ n ih =>
+    intro f hr hf
+    by_cases h0 : f = 0
+    · subst h0; rfl
+    · have hpos : 0 < f := Nat.pos_of_ne_zero h0
+      obtain ⟨hp, hrk⟩ := H.par f hpos hf
+      obtain ⟨a1, a2⟩ := H.adj f hpos hf
+      have s1 := side_of_dir (hno _ hp) a1
+      have s2 := side_of_dir (hno _ hf) a2
+      have := ih (rank (parent f)) (by omega) (parent f) rfl hp
+      simp only at s1 s2
+      tauto
+
+theorem exists_mixed (H : Tree T rank parent A B) (K : Finset Nat) (hK : K ⊆ vertsF T) (hne : K.Nonempty)
+    (hKV : K ≠ vertsF T) : ∃ f, f < T.length ∧ Mixed T K f := by
+  by_contra hcon
+  have hno : ∀ f, f < T.length → ∀ e ∈ dirs (face T f), ¬ Crosses e K := by
+    intro f hf e he hc
+    exact hcon ⟨f, hf, e, he, hc⟩
+  have hall := all_on_root_side H K hno
+  -- every vertex is on the side of the root
+  have hv : ∀ x ∈ vertsF T, (x ∈ K ↔ (face T 0).1 ∈ K) := by
+    intro x hx
+    obtain ⟨t, ht, hxt⟩ := mem_vertsF.mp hx
+    obtain ⟨f, hf, rfl⟩ := List.getElem_of_mem ht
+    have hface : face T f = T[f] := (face_of_getElem? (List.getElem?_eq_getElem hf)).1
+    have hs := not_mixed_side (hno f hf)
+    have := hall _ f rfl hf
+    rw [hface] at hs this
+    rcases hxt with rfl | rfl | rfl <;> tauto
+  by_cases hroot : (face T 0).1 ∈ K
+  · apply hKV
+    apply Finset.Subset.antisymm hK
+    intro x hx; exact (hv x hx).mpr hroot
+  · obtain ⟨x, hx⟩ := hne
+    exact hroot ((hv x (hK hx)).mp hx)
+
+theorem mixed_of_key {K : Finset Nat} {f : Nat} {k : HE} (hk : k ∈ keys (face T f)) (hc : Crosses k K) : Mixed T K f := by
+  obtain ⟨e, he, rfl⟩ := mem_keys_iff.mp hk
+  exact ⟨e, he, (crosses_norm e K).mp hc⟩
+
+/-- the graph of the non-tree edges is connected: every proper non-empty vertex set is left by a non-tree edge -/
+theorem cotree_connected (H : Tree T rank parent A B) (K : Finset Nat) (hK : K ⊆ vertsF T) (hne : K.Nonempty)
+    (hKV : K ≠ vertsF T) :
+    ∃ k ∈ edgesF T, (∀ g, 0 < g → g < T.length → te A B g ≠ k) ∧ Crosses k K := by
+  classical
+  by_contra hcon
+  push Not at hcon
+  -- the cut face reached last
+  obtain ⟨f0, hf0, hm0⟩ := exists_mixed H K hK hne hKV
+  let M := (Finset.range T.length).filter (fun f => Mixed T K f)
+  have hMne : M.Nonempty := ⟨f0, by simp only [M, Finset.mem_filter, Finset.mem_range]; exact ⟨hf0, hm0⟩⟩
+  obtain ⟨f, hfM, hmax⟩ := Finset.exists_max_image M rank hMne
+  simp only [M, Finset.mem_filter, Finset.mem_range] at hfM
+  obtain ⟨hf, hmix⟩ := hfM
+  obtain ⟨e1, e2, m1, m2, c1, c2, hne12⟩ := two_crossing (H.nd _ (face_mem hf)) hmix
+  -- each of its two crossing edges is the tree edge of f itself
+  have key : ∀ e ∈ dirs (face T f), Crosses e K → 0 < f ∧ te A B f = normHE e := by
+    intro e he hc
+    have hkE : normHE e ∈ edgesF T := mem_edgesF.mpr ⟨e, dirs_mem_heM hf he, rfl⟩
+    have hck : Crosses (normHE e) K := (crosses_norm e K).mpr hc
+    have := hcon (normHE e) hkE
+    by_cases hte : ∀ g, 0 < g → g < T.length → te A B g ≠ normHE e
+    · exact absurd hck (this hte)
+    · push Not at hte
+      obtain ⟨g, hg0, hg, hgk⟩ := hte
+      obtain ⟨hpg, hrg⟩ := H.par g hg0 hg
+      have k1 : normHE e ∈ keys (face T f) := key_of_dir he
+      have k2 : normHE e ∈ keys (face T g) := hgk ▸ te_child H hg0 hg
+      have k3 : normHE e ∈ keys (face T (parent g)) := hgk ▸ te_parent H hg0 hg
+      rcases three_faces H.two _ hf hg hpg k1 k2 k3 with e' | e' | e'
+      · subst e'; exact ⟨hg0, hgk⟩
+      · -- f is the parent of g: g is cut as well and was reached later
+        have hgM : g ∈ M := by
+          simp only [M, Finset.mem_filter, Finset.mem_range]
+          exact ⟨hg, mixed_of_key k2 hck⟩
+        have := hmax g hgM
+        rw [e'] at this; omega
+      · rw [← e'] at hrg; omega
+  obtain ⟨_, t1⟩ := key e1 m1 c1
+  obtain ⟨_, t2⟩ := key e2 m2 c2
+  exact hne12 (t1.symm.trans t2)
+
+/-! ### conclusion -/
+
+theorem bad_empty (H : Tree T rank parent A B) : bad T = ∅ := by
+  classical
+  let nonroot := (Finset.range T.length).erase 0
+  let TE := nonroot.image (te A B)
+  let C := edgesF T \ TE
+  have hnr : ∀ g, g ∈ nonroot ↔ 0 < g ∧ g < T.length := by
+    intro g; simp only [nonroot, Finset.mem_erase, Finset.mem_range]; omega
+  have hTEsub : TE ⊆ edgesF T := by
+    intro k hk
+    obtain ⟨g, hg, rfl⟩ := Finset.mem_image.mp hk
+    obtain ⟨g0, gl⟩ := (hnr g).mp hg
+    exact mem_edgesF.mpr ⟨_, dirs_mem_heM (H.par g g0 gl).1 (H.adj g g0 gl).1, rfl⟩
+  have hTEcard : TE.card = T.length - 1 := by
+    have hinj : Set.InjOn (te A B) (nonroot : Set Nat) := by
+      intro f hf g hg h
+      obtain ⟨f0, fl⟩ := (hnr f).mp hf
+      obtain ⟨g0, gl⟩ := (hnr g).mp hg
+      exact te_inj H f0 fl g0 gl h
+    rw [Finset.card_image_of_injOn hinj]
+    by_cases h0 : 0 < T.length
+    · rw [Finset.card_erase_of_mem (Finset.mem_range.mpr h0), Finset.card_range]
+    · have : T.length = 0 := by omega
+      simp [nonroot, this]
+  have hCcard : C.card = (edgesF T).card - (T.length - 1) := by
+    rw [Finset.card_sdiff_of_subset hTEsub, hTEcard]
+  apply tree_no_even_subgraph (vertsF T).card (vertsF T) C (bad T) rfl
+  · intro k hk
+    obtain ⟨hkE, _⟩ := Finset.mem_sdiff.mp hk
+    obtain ⟨e, he, rfl⟩ := mem_edgesF.mp hkE
+    obtain ⟨v1, v2⟩ := verts_of_mem_heM he
+    obtain ⟨t, ht, het⟩ := mem_heM.1 he
+    have hne := dirs_ne (H.nd t ht) (mem_heTriM.mp het)
+    rcases normHE_cases e with h | h <;> rw [h]
+    · exact ⟨v1, v2, hne⟩
+    · exact ⟨v2, v1, fun hh => hne hh.symm⟩
+  · have hchi := H.chi
+    unfold chiZ at hchi
+    have hEle : TE.card ≤ (edgesF T).card := Finset.card_le_card hTEsub
+    rw [hCcard]
+    omega
+  · intro K hK hne hKV
+    obtain ⟨k, hkE, hnt, hc⟩ := cotree_connected H K hK hne hKV
+    refine ⟨k, Finset.mem_sdiff.mpr ⟨hkE, ?_⟩, hc⟩
+    intro hk
+    obtain ⟨g, hg, hgk⟩ := Finset.mem_image.mp hk
+    obtain ⟨g0, gl⟩ := (hnr g).mp hg
+    exact hnt g g0 gl hgk
+  · intro k hk
+    refine Finset.mem_sdiff.mpr ⟨(Finset.mem_filter.mp hk).1, ?_⟩
+    intro hk'
+    obtain ⟨g, hg, rfl⟩ := Finset.mem_image.mp hk'
+    obtain ⟨g0, gl⟩ := (hnr g).mp hg
+    exact te_not_bad H g0 gl hk
+  · intro v _; exact bad_even H v
+
+/-- every half-edge occurs once and so does its reverse -/
+theorem each_once (H : Tree T rank parent A B) {a b : Nat} (h : (a, b) ∈ heM T) :
+    (heM T).count (a, b) = 1 ∧ (heM T).count (b, a) = 1 := by
+  have hb := bad_empty H
+  have hk : normHE (a, b) ∈ edgesF T := mem_edgesF.mpr ⟨_, h, rfl⟩
+  have hnb : normHE (a, b) ∉ bad T := by rw [hb]; simp
+  unfold bad at hnb
+  rw [Finset.mem_filter] at hnb
+  push Not at hnb
+  have h2 := hnb hk
+  have c1 := Multiset.one_le_count_iff_mem.mpr h
+  have cc := cnt_cases H a b
+  rcases normHE_cases (a, b) with e | e <;> (rw [e] at h2; simp only at h2; omega)
+
+/-- **the surface is consistently oriented everywhere**: closed and simple -/
+theorem sphere_oriented (H : Tree T rank parent A B) : Closed T ∧ Simple T := by
+  constructor
+  · rw [closed_iff_count]
+    intro x y
+    by_cases h : (x, y) ∈ heM T
+    · obtain ⟨h1, h2⟩ := each_once H h; rw [h1, h2]
+    · by_cases h' : (y, x) ∈ heM T
+      · obtain ⟨h1, h2⟩ := each_once H h'
+        exact absurd (Multiset.count_pos.mp (by omega)) h
+      · rw [Multiset.count_eq_zero.mpr h, Multiset.count_eq_zero.mpr h']
+  · unfold Simple
+    rw [Multiset.nodup_iff_count_le_one]
+    rintro ⟨a, b⟩
+    by_cases h : (a, b) ∈ heM T
+    · exact (each_once H h).1.le
+    · rw [Multiset.count_eq_zero.mpr h]; omega
+
+end main
 
 end Simu.C13
